@@ -109,6 +109,9 @@ def cases(tier):
             yield {"k": "hist", "dtype": dt, "shape": list(shp), "depth": d}
     for dt in ("float64", "int32", "text"):
         yield {"k": "compr", "dtype": dt}
+    for dt in (ALL if tier == "thorough" else ("float64", "int16", "uint8", "bool", "text")):
+        for shp in ([1200], [300, 5], [40, 9, 4]):
+            yield {"k": "big", "dtype": dt, "shape": shp}
 
 
 # ---------------------------------------------------------------- model
@@ -581,7 +584,72 @@ def run_compr(case, r):
             env.rm(path)
 
 
+def run_big(case, r):
+    """arrays that are NOT small: several HDF5 chunks, extents beyond 255 / 1024, appends and regions that cross
+    chunk boundaries, shrinking and growing across them"""
+    dt, shape = case["dtype"], tuple(case["shape"])
+    for comp in (Compression.No, Compression.DeflateNormal):
+        s = Sess(twin="h")
+        try:
+            name = "h1"
+            da, model = create(s.b, name, dt, shape, "data", compression=comp)
+            steps = []
+            ax_len = shape[0]
+            blk = (max(1, ax_len * 5 // 6),) + shape[1:]
+            steps.append(("append", 0, blk))
+            steps.append(("assign", tuple([slice(ax_len // 3, ax_len // 3 * 2)] + [slice(None)] * (len(shape) - 1))))
+            if len(shape) > 1:
+                steps.append(("append", 1, None))
+            steps.append(("resize", 0, -(ax_len - 7)))
+            steps.append(("resize", 0, ax_len))
+            steps.append(("assign", tuple([slice(255, 257)] + [slice(None)] * (len(shape) - 1))))
+            steps.append(("write",))
+            steps.append(("reopen", "rw"))
+            steps.append(("append", 0, (1,) + shape[1:]))
+            k = 0
+            for st in steps:
+                k += 1
+                r.evals += 1
+                r.nontrivial += 1
+                if st[0] == "append":
+                    bshape = list(model.a.shape)
+                    bshape[st[1]] = st[2][st[1]] if st[2] is not None else 3
+                    block = pattern(dt, tuple(bshape), k)
+                    da.append(block, axis=st[1])
+                    model.append(block, st[1])
+                elif st[0] == "assign":
+                    shp = model.a[st[1]].shape
+                    data = pattern(dt, shp, k + 7)
+                    da[st[1]] = data
+                    model.a[st[1]] = data
+                    model.m[st[1]] = True
+                elif st[0] == "resize":
+                    shp = list(model.a.shape)
+                    shp[st[1]] += st[2]
+                    da.data_extent = tuple(shp)
+                    model.resize(tuple(shp))
+                elif st[0] == "write":
+                    data = pattern(dt, model.a.shape, k + 11)
+                    da[:] = data
+                    model.a, model.m = data.copy(), np.ones(data.shape, dtype=bool)
+                elif st[0] == "reopen":
+                    s.reopen(st[1])
+                    da = s.b.data_arrays[name]
+                r.transitions += 1
+                opk = "big:%s:%s" % (st[0], "gzip" if comp == Compression.DeflateNormal else "raw")
+                if not verify(r, da, model, dt, opk, "in-session"):
+                    return
+            s.reopen("ro")
+            verify(r, s.b.data_arrays[name], model, dt, "big:final", "after-reopen-ro")
+            r.traces += 1
+        finally:
+            s.close(r)
+
+
 def run_case(case):
     r = R()
+    if case["k"] == "big":
+        run_big(case, r)
+        return r
     {"create": run_create, "hist": run_hist, "compr": run_compr}[case["k"]](case, r)
     return r
